@@ -95,6 +95,9 @@ def modular_sd(case, names):
     else:
         sd['subspecs'] = texts
         sd['text'] = 'out = %s;' % text_of(case, top)
+        if case.get('redefined') and names:
+            sd['earlier_subspecs'] = [('%s = (%s >= 1);' % (nm, names[0])) if flag else t
+                                      for (nm, _), t, flag in zip(defs, texts, case['redefined'])]
     return sd
 
 
@@ -238,6 +241,12 @@ class C09(Prop):
             # an interface-aware semantics with a random io assignment, on the modular and on the inlined form
             from rtverif.props.c06 import SEMS
             case['ia'] = [rng.choice(SEMS[1:]), dict((k, rng.choice(['input', 'output'])) for k in names)]
+        if case['style'] == 'add_sub_spec' and defs and not case.get('bound_consts') and rng.random() < 0.12:
+            # the object was parsed with *another* definition of one or all of the names before (parse(), then
+            # add_sub_spec() with the final definition, main text untouched, parse() again): the last definition counts
+            case['redefined'] = [rng.random() < 0.6 for _ in defs]
+            if not any(case['redefined']):
+                case['redefined'][0] = True
         if kind.startswith('ct'):
             case['signals'] = sig_text(lang.gen_signals(rng, names) if kind == 'ct_off' else
                                        dict((k, s) for k, s in self._aligned(rng, names).items()))
